@@ -12,7 +12,8 @@ TRUSTED_BASE = [
     "compared at rtol 1e-9 (orders <= 16)",
 ]
 PARTIAL = ["LSFs strictly increasing inside (0, pi) (interlacing theorem for minimum-phase polynomials): oracle only",
-           "poly <-> lsf inverse pair: relative to the roots/poly/deconvolve contracts; oracle only"]
+           "poly <-> lsf inverse pair: proved relative to the numpy.roots / numpy.poly contract only (C11.lsf_roundtrip_algebra; the zero "
+           "remainder of deconvolve is proved: lsf_deflation_exists); the root finding itself is a parameter"]
 ASSUMPTIONS = ["domain: |k_i| <= 0.98, orders 1..16"]
 RULE = ("random reflection-coefficient sets (real and complex, dyadic, |k| <= 0.98), order 1..16, zero-lag r0 > 0; every "
         "conversion and composition; non-trivial = order >= 2")
